@@ -145,3 +145,12 @@ def share_rule(rep, model, rule_fn, new_rule: str, text: str, only_rules=None):
         rep.obligations.append(o)
     for fl in sub.floors:
         rep.floors.append(fl)
+
+
+def devar(t):
+    """Replace named local containers by their initialising expression (value view of a term)."""
+    if not isinstance(t, tuple) or not t:
+        return t
+    if t[0] == "var" and len(t) == 4:
+        return devar(t[3])
+    return tuple(devar(x) if isinstance(x, tuple) else x for x in t)
